@@ -224,7 +224,7 @@ static int reg_all() {
 #if C01_TIER
 	C01_REG(tab_rel(), run_rel, glm::uint8) C01_REG(tab_rel(), run_rel, glm::int16) C01_REG(tab_rel(), run_rel, glm::uint16) C01_REG(tab_rel(), run_rel, glm::int64) C01_REG(tab_rel(), run_rel, bool)
 #endif
-	add_target("relational-minmax-componentwise", prop_rel, tab_rel().size(), 30000, 1500000,
+	add_target("relational-minmax-componentwise", prop_rel, tab_rel().size(), 30000, 800000,
 	           "instance = vec<L,T,Q> for every element type (bool in the thorough tier); lessThan lessThanEqual greaterThan greaterThanEqual equal notEqual against the built-in comparison (NaN, +-0, equal lanes planted), "
 	           "any all not_ on bvec, 3/4-argument min max (non-NaN), gtx compAdd compMul (overflow-free) compMin compMax; non-trivial = L >= 2 and the comparison outcomes differ between lanes / pairwise distinct components");
 	return 0;
@@ -235,7 +235,7 @@ static Table& tab_ext() { static Table t; return t; }
 static void prop_ext(pbt::Ctx& c) { Table& t = tab_ext(); const Inst& in = t[c.draw(t.size())]; in.run(c, in); }
 static int reg_all() {
 	C01_REG(tab_ext(), run_extfp, float) C01_REG(tab_ext(), run_extfp, double)
-	add_target("ext-common-relational", prop_ext, tab_ext().size(), 30000, 1500000,
+	add_target("ext-common-relational", prop_ext, tab_ext().size(), 30000, 800000,
 	           "instance = vec<L,float|double,Q>; fmin fmax (vec.vec, vec.scalar, 3 and 4 arguments, quiet NaN in about 1 lane of 5) fclamp, clamp/repeat/mirrorClamp/mirrorRepeat on finite coordinates, iround uround (x >= 0), "
 	           "equal/notEqual with scalar and vector epsilon on pairs at distance ~epsilon, equal/notEqual in ULPs (int and ivec) on pairs 0..8 steps apart incl. across zero, fcompMin fcompMax, compNormalize compScale; "
 	           "non-trivial = L >= 2, pairwise distinct components with pairwise distinct scalar results / outcomes differ between lanes");
